@@ -222,9 +222,21 @@ VARIANTS = [("deepcopy", None), ("pickle", None), ("pickle_gc", None), ("deepcop
             ("pickle_gc", "extend"), ("deepcopy", None), ("pickle", None)]
 
 
-def gen_copy_scenario(rng, i):
+def gen_straddle(rng):
+    """receiver <<= (n2 >> n3) where n2 belongs to the running model and n3 does not: the sender sub-model straddles the model
+    (its reduced form is the single distant node n3).  Not modelled by ModelSem: structure in Coq, behaviour by the oracle."""
+    d = rng.randint(1, 2)
+    recv = scengen.make_node(rng, 1, "fbadd", d)
+    recv["fb"] = {"model": {"nodes": [2, 3], "edges": [[2, 3]], "outs": [3]}}
+    nodes = [scengen.make_node(rng, 0, "fun", d), recv, scengen.make_node(rng, 2, rng.choice(["fun", "acc"]), d), scengen.make_node(rng, 3, "fun", d)]
+    return nodes, [{"nodes": [0, 1, 2], "edges": [[0, 1], [1, 2]]}], d
+
+
+def gen_copy_scenario(rng, i, force_fam=None):
     i = i if isinstance(i, int) else rng.randrange(1000)
     how, prep = VARIANTS[i % len(VARIANTS)]
+    if force_fam == "straddle":
+        how, prep = "deepcopy", None
     k = 2 * (i // len(VARIANTS)) + (1 if i % len(VARIANTS) > 4 else 0)      # Node.copy variants are enumerated, not drawn
     pick = how.startswith("pickle")
     if how == "nodecopy":
@@ -232,9 +244,12 @@ def gen_copy_scenario(rng, i):
     elif prep or how in ("pickle_gc", "pickle_gc_all"):
         fam = "dag" if (prep or rng.random() < 0.6) else "fb"
     else:
-        fam = rng.choice(["dag", "dag", "fb", "single"])
+        fam = rng.choice(["dag", "dag", "fb", "single"] + (["straddle"] if how == "deepcopy" else []))
+    fam = force_fam or fam
     pre = []
-    if fam == "dag":
+    if fam == "straddle":
+        nodes, models, din = gen_straddle(rng)
+    elif fam == "dag":
         kinds = ["res", "lin", "resext", "delay", "nvar", "res"] if pick else None
         nodes, edges, entries, din = scengen.gen_dag(rng, n=rng.randint(2, 5), kinds=kinds)
         models = scengen.chain_models(nodes, edges)
@@ -263,6 +278,8 @@ def gen_copy_scenario(rng, i):
           "post": gen_ops(rng, din, odim, single, rng.randint(2, 4)),
           "other": gen_ops(rng, din, odim, single, rng.randint(1, 2)),
           "side": "copy" if how in ("pickle_gc", "pickle_gc_all") else rng.choice(["copy", "orig"]), "seed": rng.randrange(10 ** 6)}
+    if fam == "straddle":
+        sc["pre"], sc["post"], sc["other"] = [], [], []          # behaviour of straddling senders is not modelled (oracle only)
     if how == "nodecopy":
         sc["copy_feedback"] = (k // 2) % 2 == 0
         sc["newname"] = "taken" if k % 5 == 4 else "fresh"
@@ -669,14 +686,18 @@ def _viol(key, what, sc, expected=None, observed=None):
 
 def gen_oracle_copy(rng, i):
     kind = ["model", "model_fb", "esn", "esn_fb", "scen", "node", "node_fb"][i % 7]
+    if kind == "model_fb" and (i // 7) % 2 == 1:
+        kind = "model_fbsub"                     # res <<= (readout >> Tanh()): the reduced sender is a single distant node
     k = i // 7
-    if kind in ("model", "model_fb"):
+    if kind == "model_fbsub":
+        how, prep = [("deepcopy", None), ("pickle", None), ("pickle_gc", None)][(i // 14) % 3]
+    elif kind in ("model", "model_fb"):
         how, prep = [("deepcopy", None), ("pickle_gc", None), ("deepcopy", "extend"), ("pickle", None), ("pickle_gc", "extend"), ("pickle", "extend")][k % 6]
     elif kind in ("node", "node_fb"):
         how, prep = ["deepcopy", "pickle", "nodecopy"][k % 3], None
     else:
         how, prep = ["deepcopy", "pickle"][k % 2], None
-    return {"family": "ocopy", "kind": kind, "how": how, "prep": prep,
+    return {"family": "ocopy", "kind": kind, "how": how, "prep": prep, "straddle": kind == "scen" and (i // 7) % 3 == 0,
             "trained": rng.random() < 0.7, "history": rng.randint(0, 2), "seed": rng.randrange(10 ** 6), "tag": i, "dout": rng.randint(1, 2)}
 
 
@@ -686,13 +707,17 @@ def _build_oracle(sc, rng):
     from reservoirpy.nodes import ESN, Reservoir, Ridge
     tag = "o%d_%d_" % (next(_uid), sc["tag"] if isinstance(sc["tag"], int) else 0)
     n, din, dout = rng.randint(2, 4), rng.randint(1, 2), sc["dout"]
-    fb = sc["kind"].endswith("_fb")
+    fb = sc["kind"].endswith("_fb") or sc["kind"] == "model_fbsub"
     arr = lambda r, c: scen.fl(scengen.mat(rng, r, c, 3, 2))  # noqa: E731
     res = Reservoir(n, lr=0.5, W=arr(n, n), Win=arr(n, din), bias=arr(n, 1), Wfb=arr(n, dout) if fb else None, name=tag + "res")
     rd = Ridge(ridge=0.125, name=tag + "rd")
     kind = sc["kind"]
     if kind in ("esn", "esn_fb"):
         return ESN(reservoir=res, readout=rd, feedback=fb, name=tag + "esn"), [res, rd], din, True
+    if kind == "model_fbsub":
+        from reservoirpy.nodes import Tanh
+        res <<= (rd >> Tanh(name=tag + "act"))
+        return res >> rd, [res, rd], din, False
     if kind in ("model", "model_fb"):
         if fb:
             res <<= rd
@@ -732,7 +757,7 @@ def _prepare_oracle(sc):
         model.fit(Xtr, Ytr)
     elif sc["kind"] != "node":
         _try(lambda: model.initialize(Xtr, Ytr))
-    for _ in range(sc["history"]):
+    for _ in range(max(sc["history"], 1) if sc["kind"] == "model_fbsub" else sc["history"]):      # fbsub: the link is initialised
         ok, r = _try(lambda: model.run(data(3, din)))
         if not ok:
             return _viol("run:exception", "valid model raises before any copy: %s" % r, sc)
@@ -858,7 +883,7 @@ def _judge_copy_scen(sc, rng):
     """Random scenario-language models (as built, rebuilt from unregistered copies, or extended in place), copied by deepcopy /
     pickle / pickle with the Model object collected before the bytes are loaded: outputs equal, name-keyed operations work,
     nothing shared."""
-    s2 = gen_copy_scenario(rng, sc["tag"] if isinstance(sc["tag"], int) else rng.randrange(1000))
+    s2 = gen_copy_scenario(rng, rng.randrange(1000), force_fam="straddle" if sc.get("straddle") else None)
     if s2["how"] == "nodecopy":
         s2["how"] = "deepcopy"
     full = dict(sc, inner=s2)
@@ -868,6 +893,8 @@ def _judge_copy_scen(sc, rng):
         b0.models[0] = None
     run_ops(b, s2["pre"])
     m0 = b.models[0]
+    if s2["shape"] == "straddle":
+        _try(lambda: m0.run(scen.fl(scengen.rows(rng, 3, s2["din"]))))      # the feedback link is initialised before the copy
     is_model = hasattr(m0, "nodes")
     onodes = list(m0.nodes) if is_model else [m0]
     how = s2["how"] if is_model or s2["how"] in ("deepcopy", "pickle") else "pickle"
@@ -947,6 +974,130 @@ def _judge_collision(sc):
     return None
 
 
+def _copy_by(how, obj):
+    if how == "deepcopy":
+        return copy.deepcopy(obj)
+    if how == "pickle":
+        return pickle.loads(pickle.dumps(obj))
+    return obj.copy(name="%s_c%d" % (obj.name, next(_uid)))
+
+
+def _judge_online(sc):
+    """LMS / FORCE(rls) / FORCE(lms) with a constant learning rate: trained or not, the node can be copied (deepcopy, pickle,
+    Node.copy); the copy returns the same outputs and, trained further on the same data, ends with the same weights."""
+    rpy()
+    from reservoirpy.nodes import FORCE, LMS
+    rng = core.random.Random(sc["seed"])
+    tag = "onl%d_" % next(_uid)
+    din, dout = rng.randint(1, 3), rng.randint(1, 2)
+    alpha = float(Fraction(1, rng.choice([4, 8, 16])))
+    node = {"lms": lambda: LMS(alpha=alpha, name=tag + "lms"), "force-rls": lambda: FORCE(alpha=alpha, name=tag + "frls"),
+            "force-lms": lambda: FORCE(alpha=alpha, rule="lms", name=tag + "flms")}[sc["node"]]()
+    data = lambda T, d: scen.fl(scengen.rows(rng, T, d, 4, 2))  # noqa: E731
+    X0, Y0, X1, Y1, X2 = data(6, din), data(6, dout), data(5, din), data(5, dout), data(4, din)
+    if sc["trained"]:
+        node.train(X0.copy(), Y0.copy())
+    else:
+        node.initialize(X0[:1], Y0[:1])
+    ok, c = _try(lambda: _copy_by(sc["how"], node))
+    if not ok:
+        return _viol("copy:lms-force-not-copyable", "%s of a%s %s node with a constant learning rate raises: %s"
+                     % (sc["how"], " trained" if sc["trained"] else "n untrained", sc["node"], c), sc, "a copy", c)
+    if shares(node, c) or not equal_contents(node, c):
+        return _viol("copy:shared-state" if shares(node, c) else "copy:contents-differ", "the %s copy of the %s node shares arrays with / differs from the original"
+                     % (sc["how"], sc["node"]), sc)
+    ro, rc = node.run(X2.copy()), c.run(X2.copy())
+    if ro.shape != rc.shape or not np.allclose(ro, rc, rtol=1e-12, atol=1e-12):
+        return _viol("copy:outputs-differ", "run returns different values on the %s node and on its %s copy" % (sc["node"], sc["how"]), sc, ro.tolist(), rc.tolist())
+    oko, to = _try(lambda: node.train(X1.copy(), Y1.copy()))
+    okc, tc = _try(lambda: c.train(X1.copy(), Y1.copy()))
+    if oko and not okc:
+        return _viol("copy:lms-force-not-copyable", "further training works on the %s node but raises on its %s copy: %s" % (sc["node"], sc["how"], tc), sc)
+    if oko and not (np.allclose(to, tc, rtol=1e-12, atol=1e-12) and equal_enough(node, c)):
+        return _viol("copy:outputs-differ", "training the %s node and its %s copy on the same data gives different outputs / weights" % (sc["node"], sc["how"]), sc)
+    before = snapshot([node])
+    destroy([c], rng)
+    if snapshot([node]) != before:
+        return _viol("copy:shared-state", "overwriting the copy changed the original %s node" % sc["node"], sc)
+    return None
+
+
+def equal_enough(a, b):
+    xa, xb = arrays_of(a), arrays_of(b)
+    return [k for k, _ in xa] == [k for k, _ in xb] and all(x.shape == y.shape and np.allclose(x, y, rtol=1e-12, atol=1e-12) for (_, x), (_, y) in zip(xa, xb))
+
+
+def _judge_failed_copy(sc):
+    """Node.copy of a node that cannot be deep-copied (a param holds a generator) raises - and must leave the node as it was,
+    in particular with its feedback connection."""
+    rpy()
+    from reservoirpy.node import Node
+    tag = "fc%d_" % next(_uid)
+
+    def init(node, x=None, **kw):
+        node.set_input_dim(x.shape[1])
+        node.set_output_dim(x.shape[1])
+    recv = Node(forward=lambda n, x: x, initializer=init, params={"junk": None}, name=tag + "recv")
+    send = Node(forward=lambda n, x: x, initializer=init, name=tag + "send")
+    recv <<= send
+    recv.set_param("junk", (i for i in range(3)))
+    fb_before = recv._feedback
+    ok, c = _try(lambda: recv.copy(name=tag + "copy", copy_feedback=sc.get("copy_feedback", False)))
+    if ok:
+        return None                                   # the copy went through: nothing to check here
+    if not recv.has_feedback or recv._feedback is not fb_before:
+        return _viol("copy:failed-copy-detaches-feedback", "Node.copy raised (%s) and left the original node without its feedback connection" % c, sc,
+                     "has_feedback = True", "has_feedback = %s" % recv.has_feedback)
+    return None
+
+
+def _judge_named_esn(sc):
+    """An ESN whose nodes are named exactly 'reservoir' and 'readout' (the keys under which the ESN stores them): fit, run, copy, run."""
+    rpy()
+    from reservoirpy.nodes import ESN, Reservoir, Ridge
+    rng = core.random.Random(sc["seed"])
+    gc.collect()
+    if "reservoir" in Reservoir._registry or "readout" in Ridge._registry:
+        return None                                   # the names are in use elsewhere in this process: the probe cannot be built
+    arr = lambda r, c: scen.fl(scengen.mat(rng, r, c, 3, 2))  # noqa: E731
+    data = lambda T, d: scen.fl(scengen.rows(rng, T, d, 4, 2))  # noqa: E731
+    res = rd = esn = c = None
+    try:
+        res = Reservoir(3, lr=0.5, W=arr(3, 3), Win=arr(3, 2), bias=arr(3, 1), name="reservoir")
+        rd = Ridge(ridge=0.125, name="readout")
+        esn = ESN(reservoir=res, readout=rd, name="nesn%d" % next(_uid))
+        X, Y, X2 = data(10, 2), data(10, 1), data(4, 2)
+        ok, r = _try(lambda: (esn.fit(X, Y), esn.run(X2.copy())))       # ESN.fit / run deep-copy the ESN themselves
+        if not ok:
+            return _viol("copy:esn-named-reservoir-readout", "fit / run of an ESN whose nodes are named 'reservoir' and 'readout' raises: %s" % r, sc)
+        ok, c = _try(lambda: _copy_by(sc["how"], esn))
+        if not ok:
+            return _viol("copy:esn-named-reservoir-readout", "%s of an ESN whose nodes are named 'reservoir' and 'readout' raises: %s" % (sc["how"], c), sc)
+        oka, attrs = _try(lambda: (c.reservoir is c.nodes[0], c.readout is c.nodes[1], c.reservoir.name, c.readout.name))
+        if not oka or not (attrs[0] and attrs[1]):
+            return _viol("copy:esn-named-reservoir-readout", "the %s copy lost its reservoir / readout attributes: %s" % (sc["how"], attrs), sc)
+        for label, f in [("run", lambda m: m.run(X2.copy())), ("run(stateful=False)", lambda m: m.run(X2.copy(), stateful=False)),
+                         ("run(return_states='all')", lambda m: m.run(X2.copy(), return_states="all")), ("fit", lambda m: m.fit(X.copy(), Y + 1.0) and 0.0)]:
+            oko, ro = _try(lambda: f(esn))
+            okc, rc = _try(lambda: f(c))
+            if oko and not okc:
+                return _viol("copy:esn-named-reservoir-readout", "%s works on the ESN but raises on its %s copy: %s" % (label, sc["how"], rc), sc, "no exception", rc)
+            if oko and label != "fit":
+                fo, fc = _flat(ro), _flat(rc)
+                if fo.shape != fc.shape or not np.allclose(fo, fc, rtol=1e-12, atol=1e-12):
+                    return _viol("copy:esn-named-reservoir-readout", "%s differs between the ESN and its %s copy" % (label, sc["how"]), sc, fo.tolist(), fc.tolist())
+        return None
+    finally:
+        res = rd = esn = c = None                     # free the two names for the next probe
+        gc.collect()
+
+
+SPECIALS = ([{"family": "online", "node": nd, "trained": tr, "how": how} for nd in ("lms", "force-rls", "force-lms") for tr in (True, False)
+             for how in ("deepcopy", "pickle", "nodecopy")]
+            + [{"family": "failedcopy", "copy_feedback": cf} for cf in (False, True)]
+            + [{"family": "namedesn", "how": how} for how in ("deepcopy", "pickle")])
+
+
 LEGACY_GRID = [dict(bias=bz, sparse=sp, fb=fb, trained=tr, dout=do)
                for bz in (True, False) for sp in (False, True) for fb in (False, True) for tr in (True, False) for do in (1, 2)
                if not (fb and not tr)]
@@ -973,9 +1124,67 @@ def _judge_legacy(sc):
     return None
 
 
+def _judge_legacy_noise(sc):
+    """A legacy ESN with non-zero, pairwise different noise gains, run with an explicit seed: compat.load(dir) has the same
+    attributes and reproduces states and outputs exactly when run with the same seed."""
+    rpy()
+    from reservoirpy import compat
+    from scipy import sparse
+    c = sc["cfg"]
+    W, Win = scen.fl(sc["W"]), scen.fl(sc["Win"])
+    Wfb = scen.fl(sc["Wfb"]) if sc["Wfb"] is not None else None
+    g_in, g_rc, g_out = (float(Fraction(v)) for v in sc["noise"])
+    kw = {"fbfunc": FBF[c["fbfunc"]]} if FBF[c["fbfunc"]] is not None else {}
+    esn = compat.ESN(lr=float(Fraction(sc["lr"])), W=sparse.csr_matrix(W) if c["sparse"] else W, Win=Win, input_bias=c["bias"],
+                     ridge=float(Fraction(sc["ridge"])), Wfb=Wfb, noise_in=g_in, noise_rc=g_rc, noise_out=g_out, seed=sc["esn_seed"], **kw)
+    X = scen.fl(sc["X"])
+    d = tempfile.mkdtemp(prefix="verif_c16n_%d_" % os.getpid())
+    try:
+        esn.train([scen.fl(sc["Xtrain"])], [scen.fl(sc["Ytrain"])], workers=1, seed=sc["run_seed"] + 1)
+        o1, s1 = esn.run([X], workers=1, return_states=True, seed=sc["run_seed"])
+        o1b, s1b = esn.run([X], workers=1, return_states=True, seed=sc["run_seed"])
+        if not (np.array_equal(o1[0], o1b[0]) and np.array_equal(s1[0], s1b[0])):
+            return None                                  # the saved model itself is not repeatable with a seed: nothing to compare
+        p = os.path.join(d, "model")
+        esn.save(p)
+        loaded = compat.load(p)
+        attrs = ("lr", "noise_in", "noise_rc", "noise_out", "seed", "input_bias", "N", "dim_in", "dim_out", "ridge")
+        diff = {a: (getattr(esn, a), getattr(loaded, a)) for a in attrs if getattr(esn, a) != getattr(loaded, a)}
+        if diff:
+            return _viol("legacy:save-load", "compat.load(dir) returns an ESN whose attributes differ from the saved one: %s" % diff, sc,
+                         {a: v[0] for a, v in diff.items()}, {a: v[1] for a, v in diff.items()})
+        o2, s2 = loaded.run([X], workers=1, return_states=True, seed=sc["run_seed"])
+        for part, a, bb in (("states", s1[0], s2[0]), ("outputs", o1[0], o2[0])):
+            if not np.array_equal(a, bb):
+                return _viol("legacy:save-load", "with noise gains %s and the same run seed, compat.load(dir) does not reproduce the %s of the saved ESN"
+                             % (sc["noise"], part), sc, np.asarray(a).tolist(), np.asarray(bb).tolist())
+    except Exception as e:  # noqa: BLE001
+        return _viol("legacy:exception", "train / run / save / load of a valid noisy legacy ESN raises: %r" % e, sc)
+    finally:
+        shutil.rmtree(d, ignore_errors=True)
+    return None
+
+
+def gen_legacy_noise(rng, i):
+    cfg = {"bias": rng.random() < 0.6, "sparse": rng.random() < 0.5, "fb": i % 2 == 0, "trained": True, "dout": rng.randint(1, 2)}
+    sc = gen_legacy(rng, "n%s" % i, cfg)
+    gains = ["1/8", "1/4", "1/2", "1/16"]
+    rng.shuffle(gains)
+    sc.update(family="legacy_noise", noise=gains[:3], esn_seed=rng.randrange(1000), run_seed=rng.randrange(1000))
+    return sc
+
+
 def _judge(sc):
+    if sc["family"] == "legacy_noise":
+        return _judge_legacy_noise(sc)
     if sc["family"] == "collision":
         return _judge_collision(sc)
+    if sc["family"] == "online":
+        return _judge_online(sc)
+    if sc["family"] == "failedcopy":
+        return _judge_failed_copy(sc)
+    if sc["family"] == "namedesn":
+        return _judge_named_esn(sc)
     if sc["family"] == "ocopy":
         return _judge_copy(sc)
     if sc["family"] == "legacy":
@@ -1008,6 +1217,22 @@ def oracle(ctx, scale=1):
         sc = {"family": "collision", "how": how, "seed": rng.randrange(10 ** 6), "tag": "col"}
         n += 1
         v = _judge_collision(sc)
+        if v:
+            out.append(v)
+    for k in range(scale):
+        for j, sp in enumerate(SPECIALS):
+            sc = dict(sp, seed=rng.randrange(10 ** 6), tag="sp%d_%d" % (k, j))
+            n += 1
+            try:
+                v = _judge(sc)
+            except Exception as e:  # noqa: BLE001
+                v = _viol("oracle:exception", "the %s probe itself raised %r" % (sp["family"], e), sc)
+            if v:
+                out.append(v)
+    for i in range(ctx.n(10, 100) * scale):
+        sc = gen_legacy_noise(rng, i)
+        n += 1
+        v = _judge_legacy_noise(sc)
         if v:
             out.append(v)
     for i in range(nleg):
